@@ -7,6 +7,8 @@ def explore(run, lean):
     hsm_corr.explore(run, "C24", 1500 if quick else 20000, hosts=("plain", "instr", "queued"),
                      malformed_rate=0.6, exhaustive_n=(0 if quick else 0))
     hsm_corr.explore_fallthrough(run, 300 if quick else 6000)
+    hsm_corr.explore_super_none(run, 200 if quick else 4000,
+                                strict=bool(((lean.get("translator") or {}).get("values") or {}).get("cfg.superGuard")))
     # charts assembled from template state functions whose registered callback returns no status
     run.factory_key = "C24"
     factory_corr.explore(run, 80 if quick else 2000, none_rate=0.8)
